@@ -202,5 +202,6 @@ MachineOK == Case
 
 \* Demo: the as-is machine against the same requirement
 AsIsWellFormed == Obs(ParseU(doc, AsIsDevs)).faults = <<>>
+DemoTagLaw == ~IsTagUniverse \/ doc = <<>> \/ TokenConsistentFor(Candidate(TagString(doc)), TokGWideUnquoted)
 AsIsFlagsClean == ~ParseU(doc, AsIsDevs).pre
 =============================================================================
